@@ -1,7 +1,420 @@
 package main
 
-import "verif/harness/hlib"
+import (
+	"fmt"
+	"sort"
+	"strconv"
+	"strings"
 
-func genPieces(rnd *hlib.Rand, n int) {}
+	"github.com/Shopify/sarama"
+	"verif/harness/hlib"
+)
 
-func replayPiece(t []string, l string) {}
+// Pure pieces of the sticky algorithm, each run through the real function (overlay) and compared with the Lean
+// definition of the same name (Model/BalanceStickyPieces.lean) by the line diff.
+
+// shuffled text of an assignment: entries in random order (the models must not depend on it)
+func asgShuffled(rnd *hlib.Rand, a map[string][]TP) string {
+	if len(a) == 0 {
+		return "-"
+	}
+	names := make([]string, 0, len(a))
+	for m := range a {
+		names = append(names, m)
+	}
+	sort.Strings(names)
+	for i := len(names) - 1; i > 0; i-- {
+		j := rnd.Intn(i + 1)
+		names[i], names[j] = names[j], names[i]
+	}
+	out := make([]string, len(names))
+	for i, m := range names {
+		out[i] = m + "=" + tpsStr(a[m])
+	}
+	return strings.Join(out, ";")
+}
+
+// order of the entries in a text (the overlay builds partition2AllPotentialConsumers visiting members in it)
+func asgOrder(s string) []string {
+	if s == "-" {
+		return nil
+	}
+	var out []string
+	for _, x := range strings.Split(s, ";") {
+		out = append(out, strings.SplitN(x, "=", 2)[0])
+	}
+	return out
+}
+
+// randState: members, what each may get (pot) and a consistent working assignment (cur): every partition held by
+// at most one member that may hold it; some members may be absent from cur (parked).
+func randState(rnd *hlib.Rand) (cur, pot map[string][]TP, all []TP) {
+	M, T := rnd.Range(1, 5), rnd.Range(1, 3)
+	mn := distinctNames(rnd, "m", M, 30)
+	cur, pot = map[string][]TP{}, map[string][]TP{}
+	parts := map[string][]int32{}
+	var tn []string
+	for t := 0; t < T; t++ {
+		name := "t" + strconv.Itoa(t+1)
+		tn = append(tn, name)
+		parts[name] = seqParts(rnd.Range(0, 4))
+		for _, p := range parts[name] {
+			all = append(all, TP{name, p})
+		}
+	}
+	identical := rnd.Chance(1, 3)
+	for _, m := range mn {
+		pot[m] = []TP{}
+		for _, t := range tn {
+			if identical || rnd.Chance(3, 5) {
+				k := 1
+				if rnd.Chance(1, 20) {
+					k = 2 // topic listed twice
+				}
+				for ; k > 0; k-- {
+					for _, p := range parts[t] {
+						pot[m] = append(pot[m], TP{t, p})
+					}
+				}
+			}
+		}
+		if !rnd.Chance(1, 8) {
+			cur[m] = []TP{}
+		}
+	}
+	for _, p := range all {
+		var cands []string
+		for _, m := range mn {
+			if _, in := cur[m]; !in {
+				continue
+			}
+			for _, q := range pot[m] {
+				if q == p {
+					cands = append(cands, m)
+					break
+				}
+			}
+		}
+		if len(cands) > 0 && !rnd.Chance(1, 6) {
+			// skewed choice so that unbalanced states are frequent
+			m := cands[0]
+			if rnd.Bool() {
+				m = cands[rnd.Intn(len(cands))]
+			}
+			cur[m] = append(cur[m], p)
+		}
+	}
+	return
+}
+
+func piece(op, ans string) {
+	run.Emit(op, ans)
+	run.Count("piece-" + strings.Fields(op)[0])
+}
+
+func doIsBal(curS, potS string) {
+	cur, pot := parseAsg(curS), parseAsg(potS)
+	op := fmt.Sprintf("isbal %s %s", curS, potS)
+	piece(op, run.Safe(op, func() string { return b01(sarama.VerifIsBalanced(toV(cur), toV(pot))) }))
+}
+
+func doScore(curS string) {
+	op := "score " + curS
+	piece(op, run.Safe(op, func() string { return strconv.Itoa(sarama.VerifBalanceScore(toV(parseAsg(curS)))) }))
+}
+
+func doSortMem(curS string) {
+	op := "sortmem " + curS
+	piece(op, run.Safe(op, func() string {
+		l := sarama.VerifSortMembers(toV(parseAsg(curS)))
+		if len(l) == 0 {
+			return "-"
+		}
+		return strings.Join(l, ",")
+	}))
+}
+
+func doCanPart(m, curS, potS string) {
+	op := fmt.Sprintf("canpart %s %s %s", m, curS, potS)
+	piece(op, run.Safe(op, func() string {
+		return b01(sarama.VerifCanConsumerParticipate(m, toV(parseAsg(curS)), toV(parseAsg(potS)), asgOrder(potS), nil))
+	}))
+}
+
+func doAssignP(tp, curS, potS string) {
+	op := fmt.Sprintf("assignp %s %s %s", tp, curS, potS)
+	piece(op, run.Safe(op, func() string {
+		p := parseTPs(tp)[0]
+		c, who, sorted := sarama.VerifAssignPartition(sarama.VerifTP{Topic: p.T, Partition: p.P}, toV(parseAsg(curS)), toV(parseAsg(potS)))
+		if who == "" {
+			who = "-"
+		}
+		s := "-"
+		if len(sorted) > 0 {
+			s = strings.Join(sorted, ",")
+		}
+		return asgStr(fromV(c), false) + "|" + who + "|" + s
+	}))
+}
+
+// subsident is compared only where the answer does not depend on the map iteration order: in each of the two
+// families of lists either all are empty or none is
+func doSubsIdent(potS, extraS string) {
+	pot := parseAsg(potS)
+	var extra []TP
+	if extraS != "-" {
+		extra = parseTPs(extraS)
+	}
+	emptyC, nonEmptyC := 0, 0
+	cons := map[TP]int{}
+	for _, p := range extra {
+		cons[p] += 0
+	}
+	for _, l := range pot {
+		if len(l) == 0 {
+			emptyC++
+		} else {
+			nonEmptyC++
+		}
+		for _, p := range l {
+			cons[p]++
+		}
+	}
+	emptyP, nonEmptyP := 0, 0
+	for _, n := range cons {
+		if n == 0 {
+			emptyP++
+		} else {
+			nonEmptyP++
+		}
+	}
+	if (emptyC > 0 && nonEmptyC > 0) || (emptyP > 0 && nonEmptyP > 0) {
+		run.Count("piece-subsident-order-dependent-skipped")
+		return
+	}
+	op := fmt.Sprintf("subsident %s %s", potS, extraS)
+	piece(op, run.Safe(op, func() string {
+		ex := make([]sarama.VerifTP, len(extra))
+		for i, p := range extra {
+			ex[i] = sarama.VerifTP{Topic: p.T, Partition: p.P}
+		}
+		return b01(sarama.VerifAreSubscriptionsIdentical(toV(pot), asgOrder(potS), ex))
+	}))
+}
+
+// prepop: reports `m1:g3:t1/0,t1/1;m2:v0:…`; compared only when no partition is claimed twice under one generation
+// key (then the result depends on the map iteration order)
+func doPrepop(repS string) {
+	g := &Group{}
+	type key struct {
+		p   TP
+		gen string
+	}
+	seen := map[key]bool{}
+	ambiguous := false
+	for _, x := range strings.Split(repS, ";") {
+		f := strings.Split(x, ":")
+		m := Member{Name: f[0], UD: UserData{Kind: f[1], Parts: parseTPs(f[2])}}
+		g.Members = append(g.Members, m)
+		gen := m.UD.Kind
+		if gen == "v0" {
+			gen = "g-1"
+		}
+		for _, p := range m.UD.Parts {
+			k := key{p, gen}
+			if seen[k] {
+				ambiguous = true
+			}
+			seen[k] = true
+		}
+	}
+	if ambiguous {
+		run.Count("piece-prepop-order-dependent-skipped")
+		return
+	}
+	op := "prepop " + repS
+	piece(op, run.Safe(op, func() string {
+		members, _ := g.saramaInput()
+		cur, prev, err := sarama.VerifPrepopulate(members)
+		if err != nil {
+			return "err"
+		}
+		var ps []string
+		keys := make([]TP, 0, len(prev))
+		for k := range prev {
+			keys = append(keys, TP{k.Topic, k.Partition})
+		}
+		sortTPs(keys)
+		for _, k := range keys {
+			ps = append(ps, fmt.Sprintf("%s/%d>%s", k.T, k.P, prev[sarama.VerifTP{Topic: k.T, Partition: k.P}].Member))
+		}
+		p := "-"
+		if len(ps) > 0 {
+			p = strings.Join(ps, ",")
+		}
+		return asgStr(fromV(cur), true) + "|" + p
+	}))
+}
+
+func doMoves(curS, scriptS string) {
+	op := fmt.Sprintf("moves %s %s", curS, scriptS)
+	piece(op, run.Safe(op, func() string {
+		var script []sarama.VerifMove
+		if scriptS != "-" {
+			for _, x := range strings.Split(scriptS, "+") {
+				f := strings.Split(x, ":")
+				p := parseTPs(f[1])[0]
+				mv := sarama.VerifMove{P: sarama.VerifTP{Topic: p.T, Partition: p.P}}
+				if f[0] == "Q" {
+					mv.Query, mv.Old, mv.New = true, f[2], f[3]
+				} else {
+					mv.New = f[2]
+				}
+				script = append(script, mv)
+			}
+		}
+		c, answers, cands, recs := sarama.VerifMovements(toV(parseAsg(curS)), script)
+		as := make([]string, len(answers))
+		for i, a := range answers {
+			as[i] = fmt.Sprintf("%s/%d", a.Topic, a.Partition)
+			if cands[i] > 1 {
+				as[i] = "amb"
+			}
+		}
+		rs := make([]string, len(recs))
+		for i, r := range recs {
+			rs[i] = r[0] + ":" + r[1] + ">" + r[2]
+		}
+		sort.Strings(rs)
+		a, r := "-", "-"
+		if len(as) > 0 {
+			a = strings.Join(as, ",")
+		}
+		if len(rs) > 0 {
+			r = strings.Join(rs, ",")
+		}
+		return asgStr(fromV(c), false) + "|" + a + "|" + r
+	}))
+}
+
+// doF12: which variant of the "previous owner" branch does the tree have? (observed on the witness)
+func doF12() {
+	plan, st := callPlan("sticky", f12Witness())
+	variant, ans := "guarded", "rejected"
+	if st == "ok" {
+		a := planAsg(plan)
+		if ownerOf(a, []string{"A", "B", "C"}, TP{"t1", 0}) == "" {
+			variant, ans = "weak", "accepted unassigned=t1/0"
+		}
+	} else {
+		ans = st
+	}
+	run.Set("sticky_previous_owner_branch", variant)
+	piece("f12 "+variant, ans)
+}
+
+func genPieces(rnd *hlib.Rand, n int) {
+	doF12()
+	for i := 0; i < n; i++ {
+		cur, pot, all := randState(rnd)
+		curS, potS := asgShuffled(rnd, cur), asgShuffled(rnd, pot)
+		switch rnd.Intn(9) {
+		case 0, 1:
+			if len(cur) > 0 {
+				doIsBal(curS, potS)
+			}
+		case 2:
+			doScore(curS)
+			doSortMem(curS)
+		case 3:
+			names := asgOrder(potS)
+			doCanPart(names[rnd.Intn(len(names))], curS, potS)
+		case 4:
+			if len(all) > 0 {
+				p := all[rnd.Intn(len(all))]
+				doAssignP(tpsStr([]TP{p}), curS, potS)
+			}
+		case 5:
+			extra := "-"
+			if rnd.Chance(1, 4) {
+				extra = "t9/0,t9/1"
+			}
+			doSubsIdent(potS, extra)
+		case 6:
+			// reports: random claims under random generations / schemas
+			names := asgOrder(potS)
+			var reps []string
+			for _, m := range names {
+				kind := []string{"-", "v0", "g0", "g1", "g2", "g3", "g-1"}[rnd.Intn(7)]
+				var claims []TP
+				if kind != "-" {
+					for _, p := range all {
+						if rnd.Chance(1, 3) {
+							claims = append(claims, p)
+						}
+					}
+				}
+				reps = append(reps, m+":"+kind+":"+tpsStr(claims))
+			}
+			doPrepop(strings.Join(reps, ";"))
+		default:
+			// movement script over the working assignment
+			names := asgOrder(curS)
+			if len(names) < 2 {
+				continue
+			}
+			where := map[TP]string{}
+			var held []TP
+			for m, l := range cur {
+				for _, p := range l {
+					where[p] = m
+					held = append(held, p)
+				}
+			}
+			sortTPs(held)
+			if len(held) == 0 {
+				continue
+			}
+			var steps []string
+			for k := rnd.Range(1, 10); k > 0; k-- {
+				p := held[rnd.Intn(len(held))]
+				to := names[rnd.Intn(len(names))]
+				if rnd.Chance(1, 3) {
+					steps = append(steps, fmt.Sprintf("Q:%s:%s:%s", tpsStr([]TP{p}), where[p], to))
+					continue
+				}
+				if to == where[p] {
+					continue
+				}
+				steps = append(steps, fmt.Sprintf("M:%s:%s", tpsStr([]TP{p}), to))
+				where[p] = to
+			}
+			if len(steps) > 0 {
+				doMoves(curS, strings.Join(steps, "+"))
+			}
+		}
+	}
+}
+
+func replayPiece(t []string, l string) {
+	switch t[0] {
+	case "isbal":
+		doIsBal(t[1], t[2])
+	case "score":
+		doScore(t[1])
+	case "sortmem":
+		doSortMem(t[1])
+	case "canpart":
+		doCanPart(t[1], t[2], t[3])
+	case "assignp":
+		doAssignP(t[1], t[2], t[3])
+	case "subsident":
+		doSubsIdent(t[1], t[2])
+	case "prepop":
+		doPrepop(t[1])
+	case "moves":
+		doMoves(t[1], t[2])
+	case "f12":
+		doF12()
+	}
+}
